@@ -14,7 +14,7 @@ pub fn meta() -> Meta {
     Meta {
         id: "C13",
         level: "exploration",
-        rule: "real generic_modes::weed (file -> file, --min-freq 0) on built files at k in {7,31,33} (thorough: + 9, 63), both strand modes, the strands-merged file additionally with its rows stored in three different rotations of key order (row order carries no meaning), --reverse on and off, against the model (kept rows = rows whose key is / is not a split k-mer of the weed file): weed sets = every window of length k..k+4 of every sample record on a position grid, every union of two such windows from a reduced grid (this includes a record of length exactly k next to a longer one), each as is / reverse-complemented / with an N substituted / lower-case, plus homopolymer weed sequences (each letter; exactly k, k+2, as first / last / second record) against a file whose samples hold A and C homopolymer stretches, an unrelated sequence, a whole sample and a weed file without any k-mer; every weed FASTA is written in one of four layouts derived from its content (one line; lines of 5; lines of 4 with CRLF; CRLF with header text and no final line end) (must be refused, file unchanged). Every kept row must be byte-identical incl. its stored count, names unchanged; a second application must change nothing; weed and reverse-weed must partition the file. CLI family for in-place vs -o. Non-trivial = the weed set removes at least one and keeps at least one k-mer.".into(),
+        rule: "real generic_modes::weed (file -> file, --min-freq 0) on built files at k in {7,31,33} (thorough: + 9, 63), both strand modes, the strands-merged file additionally with its rows stored in three different rotations of key order (row order carries no meaning), --reverse on and off, against the model (kept rows = rows whose key is / is not a split k-mer of the weed file): weed sets = every window of length k..k+4 of every sample record on a position grid, every union of two such windows from a reduced grid (this includes a record of length exactly k next to a longer one), each as is / reverse-complemented / with an N substituted / lower-case, plus homopolymer weed sequences (each letter; exactly k, k+2, as first / last / second record) against a file whose samples hold A and C homopolymer stretches, an unrelated sequence, a long record with two N at distances (k-1)/2+2, k-2, k-1, a whole sample and a weed file without any k-mer; every weed FASTA is written in one of four layouts derived from its content (one line; lines of 5; lines of 4 with CRLF; CRLF with header text and no final line end) (must be refused, file unchanged). Every kept row must be byte-identical incl. its stored count, names unchanged; a second application must change nothing; weed and reverse-weed must partition the file. CLI family for in-place vs -o. Non-trivial = the weed set removes at least one and keeps at least one k-mer.".into(),
         assumptions: vec!["--min-freq 0 (the default 0.9 additionally applies a frequency filter, checked under C10)".into()],
         exhaustive_when_uncapped: true,
     }
@@ -227,6 +227,16 @@ pub fn run(ctx: &Ctx, rep: &mut Report) {
                 check_weed(rep, &f, &[f.records[0].clone()], "whole sample");
                 check_weed(rep, &f, &[b"ACG".to_vec()], "no k-mer");
                 check_weed(rep, &f, &[vec![b'N'; k + 2]], "only N");
+                // a long weed record with two N at distances (k-1)/2+2 and k-1 (a window restarted twice in a row)
+                for d in [(k - 1) / 2 + 2, k - 1, k - 2] {
+                    let mut r = upper(&f.records[0]);
+                    if r.len() > 4 + d + k {
+                        r[3] = b'N';
+                        r[4 + d] = b'N';
+                        check_weed(rep, &f, &[r.clone()], "two N in a long record");
+                        check_weed(rep, &f, &[rc_str_n(&r)], "two N in a long record, reverse complement");
+                    }
+                }
                 rep.corner("matches_everything");
             }
             // homopolymer weed sequences against a file that holds homopolymer stretches: the split k-mer with all-A
